@@ -15,10 +15,17 @@
 
   Copy independence: the model has value semantics, so "a later edit inside the copy never
   shows at the source" holds in it by construction; on the implementation it is established by
-  the harness (probe edit after every successful copy + step-by-step agreement) — partial by tie.
+  the harness (probe edit after every successful copy + step-by-step agreement) — partial by tie —
+  and, at POINTER level, by the heap theorems at the end of this file (`heap_copy_*`,
+  `heap_move_same_node`, `heap_add_stores_value_node`, `heap_patch_failure_restores`, and the
+  refinement `heap_patch_abs`: heap-level op = `patchDo` on the abstraction) over
+  YtkModel/HeapPatch.lean, tied to the code by the sharing-map correspondence of
+  harness/heap_share2.go (kind heap-patch).
 -/
 import YtkModel.Generated.Constants
 import YtkProofs.Patch
+import YtkProofs.HeapPatch
+import YtkProofs.HeapPatchAbs
 import YtkProofs.Decisions
 
 namespace Ytk.C09
@@ -285,5 +292,356 @@ theorem source_constants :
     Generated.const? "patch.OpAdd" = some "add" ∧ Generated.const? "patch.OpRemove" = some "remove" ∧
     Generated.const? "patch.OpReplace" = some "replace" ∧ Generated.const? "patch.OpMove" = some "move" ∧
     Generated.const? "patch.OpCopy" = some "copy" ∧ Generated.const? "patch.OpTest" = some "test" := by decide
+
+
+/-! ## Pointer level: patch on the heap model (YtkModel/HeapPatch.lean)
+
+  The document is a root ADDRESS in a heap of cells; `patchDoH` has the shape of `patchDo`, with
+  `setAt` replaced by an in-place write of the ONE cell `Path.Eval` located.  Sharing facts read
+  off patch/patch.go + utils.go: add / replace attach the caller's value node ITSELF; copy attaches
+  a Clone (all cells new); move detaches and re-attaches THE SAME node (no allocation) and adds it
+  back at `from` when the add at `path` fails; insertListItem / removeListItem rebuild the item
+  slice of the one list cell from the old item nodes (no copies). -/
+
+section heap
+open Ytk.Heap
+
+/-- ADD / REPLACE STORE THE VALUE NODE ITSELF.  A successful add (replace) evaluates the parent of
+    `path`, writes that ONE cell and nothing else, allocates nothing, and afterwards the step from
+    the parent by the last token leads to the caller's node `v` — pointer-identical, not a copy.
+    (This is the documented sharing that made D30 possible one level up: pipeline.PatchOp used to
+    pass its own value node here.) -/
+theorem heap_add_stores_value_node (v : Addr) (path : Path) (h h' : Heap) (root : Addr) :
+    (doAddH (some v) path h root = (h', .ok ()) →
+      ∃ par, evalH h root (parent path) = some par ∧ stepH h' par (lastSegment path) = some v ∧
+        h'.size = h.size ∧ ∀ b, b ≠ par → h'.get? b = h.get? b) ∧
+    (doReplaceH (some v) path h root = (h', .ok ()) →
+      ∃ par, evalH h root (parent path) = some par ∧ stepH h' par (lastSegment path) = some v ∧
+        h'.size = h.size ∧ ∀ b, b ≠ par → h'.get? b = h.get? b) := by
+  constructor
+  · intro he
+    rcases doAddH_cases (some v) path h root with h1 | ⟨v', par, cell', hv, hp, h1, hc⟩
+    · rw [h1] at he; cases he
+    · rw [h1] at he
+      cases hv
+      simp only [Prod.mk.injEq, and_true] at he
+      subst he
+      exact ⟨par, hp, stepH_write_self_add hc, Heap.size_write _ _ _,
+        fun b hb => Heap.get?_write_ne h cell' hb⟩
+  · intro he
+    rcases doReplaceH_cases (some v) path h root with h1 | h1 | ⟨v', n, par, cell', hv, _, hp, h1, hc⟩
+    · rw [h1] at he; cases he
+    · rw [h1] at he; cases he
+    · rw [h1] at he
+      cases hv
+      simp only [Prod.mk.injEq, and_true] at he
+      subst he
+      exact ⟨par, hp, stepH_write_self_repl hc, Heap.size_write _ _ _,
+        fun b hb => Heap.get?_write_ne h cell' hb⟩
+
+/-- COPY IS FRESH.  A successful copy clones the node at `from` (`h1`: the heap after the Clone),
+    writes the ONE (old) parent cell of `path`, the step from that parent by the last token leads
+    to the clone root `c`, and EVERY cell reachable from `c` afterwards — containers, lists,
+    leaves — was allocated by this copy: the copied value shares no object with the source nor with
+    anything else that existed. -/
+theorem heap_copy_fresh (f path : Path) (h h' : Heap) (root : Addr) (hcl : h.Closed) (hroot : root < h.size)
+    (he : moveOrCopyH (some f) path h root false = (h', .ok ())) :
+    ∃ n h1 c par, evalH h root f = some n ∧ cloneF h.size h n = some (h1, c) ∧
+      evalH h root (parent path) = some par ∧ par < h.size ∧
+      stepH h' par (lastSegment path) = some c ∧ h'.size = h1.size ∧
+      (∀ b, b < h.size → b ≠ par → h'.get? b = h.get? b) ∧
+      ∀ b, Reach h' c b → h.size ≤ b ∧ b < h1.size := by
+  obtain ⟨n, h1, c, par, cell', hn, hc, hp, hpar, hh, hcell⟩ := copy_shape hcl hroot he
+  have hl := (cloneF_spec h.size h n h1 c hc).1
+  refine ⟨n, h1, c, par, hn, hc, hp, hpar, ?_, ?_, ?_, copy_fresh hc hpar hh⟩
+  · rw [hh]; exact stepH_write_self_add hcell
+  · rw [hh]; exact Heap.size_write _ _ _
+  · intro b hb hne
+    rw [hh, Heap.get?_write_ne h1 cell' hne, Heap.get?_eq_of_le hl hb]
+
+/-- COPY IS INDEPENDENT, both ways.  After a successful copy (clone root `c`, attached to the parent
+    cell `par`):
+    (i) any sequence of in-place writes to cells of the copy (or allocated later) — in particular
+        any builder calls on nodes below the copy — leaves the abstraction of every old root that
+        does not contain the destination unchanged: the SOURCE node, unless the copy was placed
+        inside the source itself, and every other part of the document;
+    (ii) any sequence of in-place writes to other cells (old ones — the source's —, or allocated
+        later) leaves the abstraction of the copy unchanged. -/
+theorem heap_copy_independent (f path : Path) (h h' h2 : Heap) (root : Addr) (hcl : h.Closed)
+    (hroot : root < h.size) (he : moveOrCopyH (some f) path h root false = (h', .ok ())) :
+    ∃ (n : Addr) (h1 : Heap) (c par : Addr), evalH h root f = some n ∧ cloneF h.size h n = some (h1, c) ∧
+      h'.size = h1.size ∧
+      evalH h root (parent path) = some par ∧ stepH h' par (lastSegment path) = some c ∧
+      (Writes (fun _ b => h.size ≤ b) h' h2 →
+        ∀ (g : Nat) (x : Addr) (nx : Node), absH g h x = some nx → ¬ Reach h x par →
+          absH g h2 x = some nx) ∧
+      (Writes (fun _ b => b < h.size ∨ h1.size ≤ b) h' h2 →
+        ∀ (g : Nat) (m : Node), absH g h' c = some m → absH g h2 c = some m) := by
+  obtain ⟨n, h1, c, par, cell', hn, hc, hp, hpar, hh, hcell⟩ := copy_shape hcl hroot he
+  refine ⟨n, h1, c, par, hn, hc, by rw [hh]; exact Heap.size_write _ _ _, hp,
+    by rw [hh]; exact stepH_write_self_add hcell, ?_, ?_⟩
+  · intro hw g x nx hx hnr
+    exact copy_independent_source hc hh hw hx hnr
+  · intro hw g m hm
+    exact copy_independent_copy hc hpar hh hw hm
+
+/-- the same for literal builder histories (AddValue / AddContainer / AddList / Remove / Set /
+    Append / Clear on cells of the copy, resp. on other cells) -/
+theorem heap_copy_independent_ops (f path : Path) (h h' h2 : Heap) (root : Addr) (hcl : h.Closed)
+    (hroot : root < h.size) (he : moveOrCopyH (some f) path h root false = (h', .ok ()))
+    (ops : List Ytk.Heap.Op) (ha : applyOps h' ops = some h2) :
+    ∃ (n : Addr) (h1 : Heap) (c par : Addr), evalH h root f = some n ∧ cloneF h.size h n = some (h1, c) ∧
+      h'.size = h1.size ∧
+      evalH h root (parent path) = some par ∧ stepH h' par (lastSegment path) = some c ∧
+      ((∀ op ∈ ops, h.size ≤ op.target) →
+        ∀ (g : Nat) (x : Addr) (nx : Node), absH g h x = some nx → ¬ Reach h x par →
+          absH g h2 x = some nx) ∧
+      ((∀ op ∈ ops, op.target < h.size ∨ h1.size ≤ op.target) →
+        ∀ (g : Nat) (m : Node), absH g h' c = some m → absH g h2 c = some m) := by
+  obtain ⟨n, h1, c, par, hn, hc, hsz, hp, hs, k1, k2⟩ := heap_copy_independent f path h h' h2 root hcl hroot he
+  exact ⟨n, h1, c, par, hn, hc, hsz, hp, hs, fun hq => k1 (applyOps_writes hq ha),
+    fun hq => k2 (applyOps_writes hq ha)⟩
+
+/-- MOVE RE-ATTACHES THE VERY NODE.  A successful move to another location allocates NOTHING
+    (`h'.size = h.size`), writes at most two cells — the parent of `from` (detach) and the parent of
+    `path`, evaluated after the detach (attach) — and the step from that parent by the last token
+    leads to the node `n` that `from` resolved to: the same object, not a copy. -/
+theorem heap_move_same_node (f path : Path) (h h' : Heap) (root : Addr) (hne : f ≠ path)
+    (he : moveOrCopyH (some f) path h root true = (h', .ok ())) :
+    ∃ n pf par, evalH h root f = some n ∧ evalH h root (parent f) = some pf ∧
+      stepH h' par (lastSegment path) = some n ∧ h'.size = h.size ∧
+      ∀ b, b ≠ pf → b ≠ par → h'.get? b = h.get? b := by
+  obtain ⟨n, pf, cellR, par, cell', hn, hpf, _, _, hc, hh⟩ := move_shape hne he
+  refine ⟨n, pf, par, hn, hpf, ?_, ?_, ?_⟩
+  · rw [hh]; exact stepH_write_self_add hc
+  · rw [hh, Heap.size_write, Heap.size_write]
+  · intro b h1 h2
+    rw [hh, Heap.get?_write_ne _ _ h2, Heap.get?_write_ne _ _ h1]
+
+/-- … and moving a node onto its own location is a successful no-op on the heap. -/
+theorem heap_move_same_location (f : Path) (h : Heap) (root n : Addr) (hn : evalH h root f = some n) :
+    moveOrCopyH (some f) f h root true = (h, .ok ()) := by
+  unfold moveOrCopyH moveOrCopyWith
+  simp [hn]
+
+/-- FAILURE RESTORES.  On an acyclic heap whose children maps have unique keys (every heap the
+    API builds), an operation that does not succeed (error or panic outcome) leaves EVERY existing
+    cell exactly as it was — hence the abstraction of the document and of every other root —, and
+    for every operation except copy the heap is literally the old one (a failing copy has allocated
+    its Clone, which stays unattached; a failing move's rollback re-creates the parent cell of
+    `from` cell-for-cell, `remove_add_back`). -/
+theorem heap_patch_failure_restores (o : HOpObj) (h : Heap) (root : Addr) (rank : Addr → Nat)
+    (hr : h.RankedBy rank) (hm : h.MapsOk) (hfail : (patchDoH o h root).2 ≠ .ok ()) :
+    h ≤ (patchDoH o h root).1 ∧ (∀ b, b < h.size → (patchDoH o h root).1.get? b = h.get? b) ∧
+    (∀ (g : Nat) (x : Addr) (n : Node), absH g h x = some n → absH g (patchDoH o h root).1 x = some n) ∧
+    (o.op ≠ "copy" → (patchDoH o h root).1 = h) := by
+  obtain ⟨hl, heq⟩ := patchDoH_failure hr hm hfail
+  exact ⟨hl, fun b hb => Heap.get?_eq_of_le hl hb, fun g x n hn => absH_mono hl g x n hn, heq⟩
+
+/-- THE LIST REBUILD WRITES ONE CELL.  `insertListItem` / `removeListItem` run
+    `items := list.Items(); list.Clear(); list.Append(…)…`: executed statement by statement on the
+    heap (`insertListItemStmts`, `removeListItemStmts`: every statement is a builder call on the one
+    list cell, the item NODES are re-appended themselves) they produce exactly the single write of the
+    final item list that `doAddH` / `doRemoveH` perform — no other cell is written, nothing is
+    allocated, no item is copied. -/
+theorem heap_list_rebuild_one_cell (h : Heap) (l : Addr) (xs : List Addr) (hg : h.get? l = some (.list xs))
+    (i : Nat) (v : Addr) :
+    insertListItemStmts h l i v = some (h.write l (.list (xs.take i ++ v :: xs.drop i))) ∧
+    removeListItemStmts h l i = some (h.write l (.list (xs.take i ++ xs.drop (i + 1)))) :=
+  ⟨insertListItemStmts_eq hg i v, removeListItemStmts_eq hg i⟩
+
+/-! ### Non-vacuity and the pre-fix shape (D13)
+
+  `pHeap`: 0 nilLeaf · 1 leaf 1 · 2 list [#1, nilLeaf] · 3 {x: #1} · 4 {a: #2, b: #3} (root). -/
+def pHeap : Heap := ⟨[.leaf Scalar.null, .leaf ⟨"int", "1"⟩, .list [1, 0], .cont [("x", 1)],
+  .cont [("a", 2), ("b", 3)]]⟩
+
+/-- copy /a → /c succeeds, the copy is three new cells, the source list is untouched -/
+theorem nonvacuous_heap_copy :
+    (moveOrCopyH (some ["a"]) ["c"] pHeap 4 false).2 = .ok () ∧
+    (moveOrCopyH (some ["a"]) ["c"] pHeap 4 false).1.size = 8 ∧
+    evalH (moveOrCopyH (some ["a"]) ["c"] pHeap 4 false).1 4 ["c"] = some 7 ∧
+    evalH (moveOrCopyH (some ["a"]) ["c"] pHeap 4 false).1 4 ["a"] = some 2 := by decide +kernel
+
+/-- move /a → /b/y: no allocation, the node found at /b/y is the node that was at /a -/
+theorem nonvacuous_heap_move :
+    (moveOrCopyH (some ["a"]) ["b", "y"] pHeap 4 true).2 = .ok () ∧
+    (moveOrCopyH (some ["a"]) ["b", "y"] pHeap 4 true).1.size = 5 ∧
+    evalH (moveOrCopyH (some ["a"]) ["b", "y"] pHeap 4 true).1 4 ["b", "y"] = some 2 ∧
+    evalH (moveOrCopyH (some ["a"]) ["b", "y"] pHeap 4 true).1 4 ["a"] = none := by decide +kernel
+
+/-- a move whose add fails after the detach (target parent /q missing) restores the heap -/
+theorem nonvacuous_heap_move_rollback :
+    moveOrCopyH (some ["a"]) ["q", "z"] pHeap 4 true = (pHeap, .err) := by decide +kernel
+
+/-- NEGATIVE (pre-fix shape of copy, D13): without the Clone the very node is attached twice — the
+    "copy" at /c IS the source at /a, so an edit below one shows at the other. -/
+theorem heap_copy_noClone_aliases :
+    (copyNoClone (some ["a"]) ["c"] pHeap 4).2 = .ok () ∧
+    evalH (copyNoClone (some ["a"]) ["c"] pHeap 4).1 4 ["c"] = some 2 ∧
+    evalH (copyNoClone (some ["a"]) ["c"] pHeap 4).1 4 ["a"] = some 2 := by decide +kernel
+
+end heap
+
+/-! ### Refinement: the heap-level operation abstracts to the value-level one -/
+
+section refine
+open Ytk.Heap
+
+/-- the value-level operation object: the same, with the value node replaced by its abstraction -/
+def absOp (o : HOpObj) (nv : Option Node) : OpObj := ⟨o.op, o.frm, o.path, nv⟩
+
+/-- REFINEMENT.  Let the document at `root` abstract to `d` (`abs`: fuel = heap size), the value
+    node — if the operation object has one — to `nv`, all tokens be plain member names / indices,
+    the location non-root, and let the parent cell of `path` be reached from the root along that
+    path ONLY, not reach itself, and not be contained in the value (`Dest`: tree-shaped documents,
+    a value that is not part of the document — when a container or list object occurs at two
+    places of a document, a write through one place shows at the other, which no value-level tree
+    operation expresses).  For `move` (two writes: detach at `from`, attach at `path`, and the
+    rollback at `from`) the same is asked of the parent of `from`, and of both parents in the heap
+    after the detach with the moved node as the value (`hmove`).  Then the heap-level operation has
+    the outcome of the value-level `patchDo`, and the document afterwards abstracts (with some
+    fuel) to the value-level result document.
+    Together with `patch_refines` this is: pointer-level patch = RFC 6902 on the abstraction. -/
+theorem heap_patch_abs (o : HOpObj) (h : Heap) (root : Addr) (d : Node) (nv : Option Node)
+    (hm : h.MapsOk) (hcl : h.Closed) (hroot : root < h.size)
+    (hd : abs h root = some d)
+    (hval : (∀ v, o.value = some v → ∃ x, nv = some x ∧ abs h v = some x) ∧ (o.value = none → nv = none))
+    (hpath : ∀ p, o.path = some p → Plain p ∧ p ≠ [] ∧ Dest h root (parent p) o.value.toList)
+    (hfrm : ∀ f, o.frm = some f → Plain f)
+    (hmove : o.op = "move" → ∀ f p, o.frm = some f → o.path = some p →
+      Dest h root (parent f) [] ∧ ∀ n, evalH h root f = some n →
+        Dest (doRemoveH f h root).1 root (parent p) [n] ∧ Dest (doRemoveH f h root).1 root (parent f) [n]) :
+    ∃ G, absH G (patchDoH o h root).1 root = some (patchDo (absOp o nv) d).1 ∧
+      (patchDoH o h root).2 = (patchDo (absOp o nv) d).2 := by
+  have hm' : ∀ a kvs, Reach h root a → h.get? a = some (.cont kvs) → AMap.Sorted kvs :=
+    fun a kvs _ hg => hm a kvs hg
+  have hd0 : absH h.size h root = some d := hd
+  unfold patchDoH patchDo absOp
+  dsimp only
+  cases hp : o.path with
+  | none => exact ⟨h.size, hd0, rfl⟩
+  | some path =>
+    obtain ⟨hpl, hne, hdest⟩ := hpath path hp
+    dsimp only
+    have hdest0 : Dest h root (parent path) [] :=
+      fun par he => ⟨(hdest par he).1, (hdest par he).2.1, fun v hv => by cases hv⟩
+    by_cases h1 : o.op = "add"
+    · rw [if_pos h1, if_pos h1]
+      cases hv : o.value with
+      | none =>
+        rw [hval.2 hv]
+        exact ⟨h.size, hd0, rfl⟩
+      | some v =>
+        obtain ⟨x, rfl, hx⟩ := hval.1 v hv
+        rw [hv] at hdest
+        have := doAddH_abs hm' hpl hne hd0 hx hdest
+        exact ⟨_, this.1, this.2⟩
+    · rw [if_neg h1, if_neg h1]
+      by_cases h2 : o.op = "remove"
+      · rw [if_pos h2, if_pos h2]
+        have := doRemoveH_abs hm' hpl hne hd0 hdest0
+        exact ⟨_, this.1, this.2⟩
+      · rw [if_neg h2, if_neg h2]
+        by_cases h3 : o.op = "replace"
+        · rw [if_pos h3, if_pos h3]
+          cases hv : o.value with
+          | none =>
+            rw [hval.2 hv]
+            exact ⟨h.size, hd0, rfl⟩
+          | some v =>
+            obtain ⟨x, rfl, hx⟩ := hval.1 v hv
+            rw [hv] at hdest
+            have := doReplaceH_abs hm' hpl hne hd0 hx hdest
+            exact ⟨_, this.1, this.2⟩
+        · rw [if_neg h3, if_neg h3]
+          by_cases h4 : o.op = "move"
+          · rw [if_pos h4, if_pos h4]
+            cases hf : o.frm with
+            | none => exact ⟨h.size, hd0, rfl⟩
+            | some f =>
+              obtain ⟨m1, m2⟩ := hmove h4 f path hf hp
+              exact moveH_abs hm (hfrm f hf) hpl hne hd0 m1 m2
+          · rw [if_neg h4, if_neg h4]
+            by_cases h5 : o.op = "copy"
+            · rw [if_pos h5, if_pos h5]
+              cases hf : o.frm with
+              | none => exact ⟨h.size, hd0, rfl⟩
+              | some f => exact copyH_abs hm hcl hroot (hfrm f hf) hpl hne hd hdest0
+            · rw [if_neg h5, if_neg h5]
+              by_cases h6 : o.op = "test"
+              · rw [if_pos h6, if_pos h6]
+                cases hv : o.value with
+                | none =>
+                  rw [hval.2 hv]
+                  exact ⟨h.size, hd0, rfl⟩
+                | some v =>
+                  obtain ⟨x, rfl, hx⟩ := hval.1 v hv
+                  obtain ⟨t1, t2, t3⟩ := doTestH_abs (path := path) hpl hd hx
+                  exact ⟨h.size, by rw [t1, t3]; exact hd0, t2⟩
+              · rw [if_neg h6, if_neg h6]
+                exact ⟨h.size, hd0, rfl⟩
+
+/-- non-vacuity: on `pHeap` (a tree as far as containers and lists go) the hypotheses hold for
+    `add /b/y <leaf #1>`, and both sides give the same document -/
+theorem nonvacuous_heap_patch_abs :
+    (patchDoH ⟨"add", none, some ["b", "y"], some 1⟩ pHeap 4).2 = .ok () ∧
+    abs (patchDoH ⟨"add", none, some ["b", "y"], some 1⟩ pHeap 4).1 4 =
+      some (patchDo ⟨"add", none, some ["b", "y"], some (.leaf ⟨"int", "1"⟩)⟩
+        (.cont [("a", .list [.leaf ⟨"int", "1"⟩, .leaf Scalar.null]), ("b", .cont [("x", .leaf ⟨"int", "1"⟩)])])).1 ∧
+    abs pHeap 4 = some (.cont [("a", .list [.leaf ⟨"int", "1"⟩, .leaf Scalar.null]),
+      ("b", .cont [("x", .leaf ⟨"int", "1"⟩)])]) := by decide +kernel
+
+/-- a set of addresses that is closed under the child edge confines reachability (decidable check
+    for concrete heaps) -/
+theorem not_reach_of_closed {h : Heap} (S : List Addr)
+    (hS : (S.all fun a => match h.get? a with
+      | some c => c.kids.all (fun k => S.contains k)
+      | none => true) = true)
+    {x par : Addr} (hx : x ∈ S) (hp : par ∉ S) : ¬ Reach h x par := by
+  intro hr
+  refine hp (Reach.closed_set (fun a => a ∈ S) ?_ hr hx)
+  intro a c ha hg k hk
+  have h1 := List.all_eq_true.mp hS a ha
+  simp only [hg] at h1
+  have h2 := List.all_eq_true.mp h1 k hk
+  simpa using h2
+
+/-- … and the hypotheses of `heap_patch_abs` hold there: `Dest` for the parent /b of the
+    location /b/y and the value node #1 -/
+theorem nonvacuous_heap_patch_abs_hyps :
+    pHeap.MapsOk ∧ pHeap.Closed ∧ Plain ["b", "y"] ∧ Dest pHeap 4 (parent ["b", "y"]) [1] := by
+  refine ⟨mapsOk_of_all (by decide +kernel), closed_of_all (by decide +kernel), ?_, ?_⟩
+  · intro t ht
+    simp only [List.mem_cons, List.mem_nil_iff, or_false] at ht
+    rcases ht with rfl | rfl <;> decide +kernel
+  · intro par he
+    have hpar : par = 3 := by
+      have : evalH pHeap 4 (parent ["b", "y"]) = some 3 := by decide +kernel
+      rw [this] at he; exact (Option.some.inj he).symm
+    subst hpar
+    have hleaf : ¬ Reach pHeap 1 3 := not_reach_of_closed [1] (by decide +kernel) (by decide) (by decide)
+    refine ⟨?_, ?_, ?_⟩
+    · show SolePath pHeap 4 ["b"] 3
+      refine ⟨by decide, 3, by decide +kernel, rfl, ?_⟩
+      show ∀ p ∈ [("a", 2), ("b", 3)], p.1 ≠ "b" → ¬ Reach pHeap p.2 3
+      intro p hp hne
+      simp only [List.mem_cons, List.mem_nil_iff, or_false] at hp
+      rcases hp with rfl | rfl
+      · exact not_reach_of_closed [2, 1, 0] (by decide +kernel) (by decide) (by decide)
+      · exact absurd rfl hne
+    · intro c hg k hk
+      have : c = .cont [("x", 1)] := by
+        have h3 : pHeap.get? 3 = some (.cont [("x", 1)]) := by decide +kernel
+        rw [h3] at hg; exact (Option.some.inj hg).symm
+      subst this
+      simp only [Cell.kids, List.map_cons, List.map_nil, List.mem_singleton] at hk
+      subst hk
+      exact hleaf
+    · intro v hv
+      cases List.mem_singleton.mp hv
+      exact hleaf
+
+end refine
 
 end Ytk.C09
